@@ -388,6 +388,18 @@ func init() {
 }
 
 func sweepC14(tier string, emit func(*CaseC14)) {
+	// long routes: thousands of line voxels in one call (an implementation that works through the line in slabs or
+	// batches must still return a duplicate-free result that contains the line)
+	long := []float64{9000.4}
+	if tier != "quick" {
+		long = []float64{1100.4, 4200.4, 9000.4, 20000.4}
+	}
+	for _, n := range long {
+		base := Pt{F64(139.788452), F64(35.670935), F64(100)}
+		wl, _, _ := localSizes(base, 25, 10)
+		widthM := wl * math.Pi / 180 * 6378137 * math.Cos(base.Lat.V()*math.Pi/180)
+		emit(&CaseC14{S: base, E: Pt{F64(base.Lon.V() + n*wl), base.Lat, base.Alt}, H: 25, V: 10, Radius: F64(0.3 * widthM), U: 0.3})
+	}
 	// the three scenarios of the repository's own tests, with the radius varied
 	for _, u := range []float64{0, 0.3, 1.2} {
 		for _, h := range []int64{4, 18, 23, 31} {
